@@ -575,6 +575,24 @@ def located_ok(files, main, e_file, e_line):
     return 1 <= e_line <= nlines
 
 
+# the defect witnesses of DESIGN section 6 and other inputs that drive error paths / library state (errno, huge literals)
+C02_CORPUS = [
+    (b'm', {b'm': b'PROGRAM f DO x0 := 1 END\nx1 := RUN f WITH END'}),
+    (b'm', {b'm': b'PROGRAM f IN a DO x0 := a END\nx1 := RUN f WITH x1, END'}),
+    (b'q', {b'm': b'x := 1'}), (b'm', {b'm': b''}), (b'm', {b'm': b'  // only a comment\n\n'}),
+    (b'm', {b'm': b'PROGRAM f IN a, a OUT a DO a := a END\nx1 := RUN f WITH 1, 2 END'}),
+    (b'm', {b'm': b'DEFINE'}), (b'm', {b'm': b'DEFINE x AS'}), (b'm', {b'm': b'DEFINE PRIO 99999999999999999999 x AS y END DEFINE x'}),
+    (b'm', {b'm': b'x0 := 99999999999999999999'}), (b'm', {b'm': b'x0 := x0 - 2147483648'}), (b'm', {b'm': b'x0 := x0 + 2147483647'}),
+    (b'm', {b'm': b'$0 <P> #1 <ID> x := \x00 y'}), (b'm', {b'm': b'\xff\xfe := 1; include'}), (b'm', {b'm': b'RUN'}),
+    (b'm', {b'm': b'x := RUN f WITH'}), (b'm', {b'm': b'PROGRAM'}), (b'm', {b'm': b'PROGRAM f IN'}), (b'm', {b'm': b'PROGRAM f IN a OUT'}),
+    (b'm', {b'm': b'LOOP'}), (b'm', {b'm': b'IF x = 1 THEN GOTO'}), (b'm', {b'm': b'l:'}), (b'm', {b'm': b'; ; ;'}),
+    (b'm', {b'm': b'include "m"'}), (b'__standards__', {}), (b'm', {b'm': b'x := 1', b'__standards__': b'DEFINE'}),
+    (b'm', {b'm': b'', b'__standards__': b'x := RUN f WITH END'}), (b'm', {b'm': b'', b'__standards__': b'GOTO m'}),
+    (b'm', {b'm': b'include "__standards__"', b'__standards__': b'x := 99999999999; LOOP x DO y := RUN g WITH 1 END END'}),
+    (b'-', {b'-': b';'}), (b'm', {b'm': b'\n\ninclude "-"', b'-': b'x := \n\n;'}), (b'-', {b'm': b'x := 1'}),
+]
+
+
 def source_dictionary():
     """whole string literals of identifier shape in the compiler sources (names the code compares identifiers with)"""
     import glob
@@ -594,22 +612,7 @@ def check_C02(ctx):
         return finish(ctx)
     r = ctx.rnd
     cases = []
-    # corpus: the defect witnesses of DESIGN section 6
-    corpus = [
-        (b'm', {b'm': b'PROGRAM f DO x0 := 1 END\nx1 := RUN f WITH END'}),
-        (b'm', {b'm': b'PROGRAM f IN a DO x0 := a END\nx1 := RUN f WITH x1, END'}),
-        (b'q', {b'm': b'x := 1'}), (b'm', {b'm': b''}), (b'm', {b'm': b'  // only a comment\n\n'}),
-        (b'm', {b'm': b'PROGRAM f IN a, a OUT a DO a := a END\nx1 := RUN f WITH 1, 2 END'}),
-        (b'm', {b'm': b'DEFINE'}), (b'm', {b'm': b'DEFINE x AS'}), (b'm', {b'm': b'DEFINE PRIO 99999999999999999999 x AS y END DEFINE x'}),
-        (b'm', {b'm': b'x0 := 99999999999999999999'}), (b'm', {b'm': b'x0 := x0 - 2147483648'}), (b'm', {b'm': b'x0 := x0 + 2147483647'}),
-        (b'm', {b'm': b'$0 <P> #1 <ID> x := \x00 y'}), (b'm', {b'm': b'\xff\xfe := 1; include'}), (b'm', {b'm': b'RUN'}),
-        (b'm', {b'm': b'x := RUN f WITH'}), (b'm', {b'm': b'PROGRAM'}), (b'm', {b'm': b'PROGRAM f IN'}), (b'm', {b'm': b'PROGRAM f IN a OUT'}),
-        (b'm', {b'm': b'LOOP'}), (b'm', {b'm': b'IF x = 1 THEN GOTO'}), (b'm', {b'm': b'l:'}), (b'm', {b'm': b'; ; ;'}),
-        (b'm', {b'm': b'include "m"'}), (b'__standards__', {}), (b'm', {b'm': b'x := 1', b'__standards__': b'DEFINE'}),
-        (b'm', {b'm': b'', b'__standards__': b'x := RUN f WITH END'}), (b'm', {b'm': b'', b'__standards__': b'GOTO m'}),
-        (b'm', {b'm': b'include "__standards__"', b'__standards__': b'x := 99999999999; LOOP x DO y := RUN g WITH 1 END END'}),
-        (b'-', {b'-': b';'}), (b'm', {b'm': b'\n\ninclude "-"', b'-': b'x := \n\n;'}), (b'-', {b'm': b'x := 1'}),
-    ]
+    corpus = C02_CORPUS
     for m, f in corpus:
         cases.append((m, f, {'text': {k.decode('latin1'): v.decode('latin1') for k, v in f.items()}, 'corpus': True}))
     # every single-token deletion / insertion / swap of a few valid sources; truncation at every token
